@@ -57,6 +57,33 @@ MASS_FRAME_FIELDS = {'body_ipos', 'body_iquat', 'body_sameframe', 'body_simple',
                      'stat.extent', 'stat.meansize', 'dof_simplenum', 'body_gravcomp'} - {'body_gravcomp'}
 
 
+# Outputs of mj_setConst that go through the inverse inertia matrix at qpos0 (and its aggregates): their relative error
+# is cond(M) * eps * k, not 200 eps.  The saved text reproduces positions/orientations only up to re-normalisation of
+# quaternions (a few eps), which these fields amplify.  COND_RTOL = 1e-8 ~ cond(M) <= 1e6 x 2e-16 x 50; worst observed on
+# the unchanged tree is recorded in the evidence (worst_conditioned_error).
+COND_FIELDS = {'body_invweight0', 'dof_invweight0', 'tendon_invweight0', 'actuator_acc0', 'stat.meaninertia'}
+COND_RTOL = 1e-8
+_worst_cond = [0.0]
+
+
+def compare17(lib, m1, m2, **kw):
+  ds = modelcmp.compare(lib, m1, m2, mode='upstream', skip=('signature',), **kw)
+  out = []
+  for d in ds:
+    if d.field in COND_FIELDS and d.kind == 'float':
+      a = np.atleast_1d(np.asarray(modelcmp._member(m1, d.field), dtype=float))
+      b = np.atleast_1d(np.asarray(modelcmp._member(m2, d.field), dtype=float))
+      with np.errstate(all='ignore'):
+        rel = np.abs(a - b) / np.maximum(np.maximum(np.abs(a), np.abs(b)), 1e-300)
+      rel = np.where(np.isfinite(rel), rel, 0.0)
+      w = float(rel.max()) if rel.size else 0.0
+      if w <= COND_RTOL:
+        _worst_cond[0] = max(_worst_cond[0], w)
+        continue
+    out.append(d)
+  return out
+
+
 def order_unsafe(xml):
   """Does the document contain the shape of the known writer finding: inside one body, an element of kind K that sits in
   a <frame>/<replicate> is followed by a direct sibling of the same kind K (the writer emits direct children first)."""
@@ -188,7 +215,7 @@ class C32:
     except mj.MjError as e:
       raise Violation('%s: saved XML does not load again: %s' % (name, str(e)[:300]), bucket='saved-xml-rejected')
     try:
-      diffs = modelcmp.compare(lib, m, m2, mode='upstream', skip=('signature',))
+      diffs = compare17(lib, m, m2)
       if diffs:
         msg = '%s: save/reload at full precision changes the model: %s' % (name, modelcmp.fmt(diffs))
         if m.nmesh and all(d.kind == 'float' and d.err < MESH_F32_TOL for d in diffs):
@@ -215,7 +242,7 @@ class C32:
         except mj.MjError as e:
           raise Violation('%s: second-trip XML does not load: %s' % (name, str(e)[:300]), bucket='second-trip-rejected')
         lib.mj_deleteSpec(s3)
-        d3 = modelcmp.compare(lib, m2, m3, mode='upstream', skip=('signature',))
+        d3 = compare17(lib, m2, m3)
         if d3 and unsafe and is_permutation_only(lib, m2, m3):
           ck.violation('%s: the second save/reload permutes elements (first trip was order-preserving): %s  [frames are kept '
                        'in the saved text and elements inside them are written after their direct siblings]' % (
@@ -314,6 +341,11 @@ class C32:
                       'which is transformed again on reload'))
         if ok:
           return out
+      if comp.fusestatic and all((d.kind == 'size' and d.field.startswith('nbvh')) or
+                                 (d.kind == 'int' and d.field.endswith(('id', 'trnid', 'objid', 'refid'))) for d in ds):
+        return [('fusestatic-stale-ids', 'with fusestatic the ORIGINAL compile keeps ids/BVH nodes computed before the static '
+                 'body was fused (same root cause as C36 fusestatic-stale-geom-site-ids); the reloaded model, in which '
+                 'the bodies are already fused, has the correct ids')]
       if comp.fusestatic and all(d.kind == 'size' for d in ds):
         na, nb = name_orders(lib, ma), name_orders(lib, mb)
         lost = [k for k in ('geom', 'site', 'camera', 'light') if len(nb[k]) < len(na[k])]
@@ -338,7 +370,7 @@ class C32:
           except mj.MjError:
             continue
           lib.mj_deleteSpec(sx)
-          ds = modelcmp.compare(lib, m, mb, mode='upstream', skip=('signature',))
+          ds = compare17(lib, m, mb)
         res = residual(ds, m, mb)
         if res is None and sub:
           fields = set(d.field for d in ds)
@@ -500,7 +532,7 @@ def main(ck):
       if ncorpus % 6 == 0 and '<include' not in src:
         try:
           m1, m2, text = c.lastxml_route(rel, f)
-          d = modelcmp.compare(lib, m1, m2, mode='upstream', skip=('signature',))
+          d = compare17(lib, m1, m2)
           pat = [p for p in c.upstream_fail if p in f]
           if d and pat:
             ck.violation('%s: mj_saveLastXML round trip changes the model: %s  [file matches "%s" in the maintainers\' own '
@@ -520,6 +552,8 @@ def main(ck):
   ck.extra['worst_relative_error_default_precision'] = {k: float('%.3g' % v) for k, v in sorted(
       c.worst6.items(), key=lambda kv: -kv[1])[:8]}
   ck.extra['rtol_default_precision'] = RTOL6
+  ck.extra['worst_conditioned_error'] = _worst_cond[0]
+  ck.extra['conditioned_rtol'] = COND_RTOL
   ck.extra['worst_mesh_float32_error'] = getattr(c, 'worst_meshf32', 0.0)
   ck.extra['upstream_acknowledged_patterns'] = c.upstream_fail
 
